@@ -128,6 +128,17 @@ Proof.
   intros s1 a _. destruct a; cbn [sframe]; [pf_triv|apply pframe_refl].
 Qed.
 
+Lemma pframe_set_last_sent s x : pframe s (set_last_sent_seq_nr s x).
+Proof. pf_triv. Qed.
+Lemma pframe_set_seq_nr s x : pframe s (set_seq_nr s x).
+Proof. pf_triv. Qed.
+Lemma pframe_set_t_retransmit s x : pframe s (set_t_retransmit s x).
+Proof. pf_triv. Qed.
+Lemma pframe_set_t_inactivity s x : pframe s (set_t_inactivity s x).
+Proof. pf_triv. Qed.
+Lemma pframe_set_segs s x : pframe s (set_segs s x).
+Proof. pf_triv. Qed.
+
 Lemma send_data_frame s h f : sframe s (send_data s h f).
 Proof.
   unfold send_data. destruct (_ =? _); [apply pframe_refl|].
@@ -137,10 +148,13 @@ Proof.
   destruct o; cbn [sframe]; auto.
   - eapply pframe_trans; [exact F|].
     eapply pframe_trans; [apply pframe_emit|].
-    match goal with |- pframe ?a (set_t_inactivity (set_t_retransmit ?x _) _) =>
-      assert (Hx : pframe a x) end.
-    { destruct (seq_gt _ _); unfold on_packet_sent; pf_triv. }
-    eapply pframe_trans; [exact Hx|]. pf_triv.
+    eapply pframe_trans; [|apply pframe_set_t_inactivity].
+    eapply pframe_trans; [|apply pframe_set_t_retransmit].
+    eapply pframe_trans; [apply pframe_set_segs|].
+    eapply pframe_trans; [apply on_packet_sent_frame|].
+    destruct (seq_gt _ _); [|apply pframe_refl].
+    eapply pframe_trans; [apply pframe_set_last_sent|].
+    destruct (seq_gt _ _); [apply pframe_set_seq_nr|apply pframe_refl].
 Qed.
 
 Lemma on_rto_reactions_frame s s' : on_rto_reactions cci s = Some s' -> pframe s s'.
@@ -246,7 +260,7 @@ Proof.
     match goal with |- pframe ?x (set_ss ?y _) => assert (F3 : pframe x y) end.
     { destruct (seq_gt _ _); pf_triv. }
     exact F3.
-  - exact F.
+  - cbn [sframe]. eapply pframe_trans; [exact F|pf_triv].
   - apply split_cont_frame. exact F.
 Qed.
 
@@ -357,7 +371,7 @@ Lemma process_all_frame s : sframe s (process_all_incoming_messages cci s).
 Proof.
   unfold process_all_incoming_messages.
   apply sframe_bind; [apply recv_loop_frame|].
-  intros s1 [r early] _. cbv beta iota zeta. destruct early; [apply pframe_refl|].
+  intros s1 [r early] _. cbv beta iota zeta.
   match goal with |- context [truncate_front (v_tx ?x) _] =>
     assert (F2 : pframe s1 x); [|abs_as x F2 s2] end.
   { destruct (_ || _); [|apply pframe_refl].
